@@ -20,12 +20,26 @@ if r.returncode != 0:
     sys.exit(2)
 res = {}
 try:
-    for p in props:
+    # build once (worker against the changed tree), then the checks five at a time
+    subprocess.run([os.path.join(ROOT, 'check'), '--setup'], capture_output=True, text=True, cwd=ROOT)
+    from concurrent.futures import ThreadPoolExecutor
+
+    def one(p):
         t0 = time.time()
         q = subprocess.run([os.path.join(ROOT, 'check'), p, '--tier', tier], capture_output=True, text=True, cwd=ROOT)
         vio = [l for l in q.stdout.splitlines() if l.startswith('VIOLATION')]
-        res[p] = {'exit': q.returncode, 'violations': len(vio), 'first': vio[:2], 'wall_s': round(time.time() - t0, 1)}
-        print(p, 'exit', q.returncode, 'VIOLATIONS', len(vio), vio[0] if vio else '', flush=True)
+        why = ''
+        if vio:
+            f = os.path.join(ROOT, vio[0].split('replay=')[1].split(' ')[0])
+            try:
+                why = [l for l in open(f).read().splitlines()[:6] if l.startswith('# ') and ':' in l and not l.startswith(('# property', '# seed', '# tier'))][0][:200]
+            except Exception:
+                pass
+        return p, {'exit': q.returncode, 'violations': len(vio), 'first': vio[:2], 'why': why, 'wall_s': round(time.time() - t0, 1)}
+    with ThreadPoolExecutor(5) as ex:
+        for p, r in ex.map(one, props):
+            res[p] = r
+            print(p, 'exit', r['exit'], 'VIOLATIONS', r['violations'], r['first'][0] if r['first'] else '', r['why'], flush=True)
 finally:
     subprocess.run(['git', '-C', '/repo', 'checkout', '--', '.'])
     subprocess.run(['git', '-C', '/repo', 'clean', '-fdq', '--', 'pocket-db/tests', 'pocket-types/tests'])
